@@ -73,6 +73,12 @@ pub fn apply_model(m: &mut RefStore, op: Op, val_tag: &str, key_len: usize) -> E
             m.restart(false);
             Expect::Res(Res::Ok)
         }
+        Op::DamageRstLazy => {
+            let had_files = m.blobs().count() > 0;
+            m.quarantine_highest();
+            m.restart_ext(true, had_files);
+            Expect::Res(Res::Ok)
+        }
         Op::Rst => {
             m.restart(false);
             Expect::Res(Res::Ok)
